@@ -374,11 +374,14 @@ def weave_fn(sf, it, spec, log, where, canary=False):
             else:
                 pat = [t.text for t in lex(key)]
                 hits = _find_seq(toks, it.body_lo, it.body_hi + 1, pat)
-                if len(hits) != 1:
+                if len(hits) > 1:
                     raise Undecided('%s: closure anchor %r matched %d times' % (where, key, len(hits)))
-                after = [x for x in sites if x[0] >= hits[0] + len(pat)]
-                if not after:
-                    raise Undecided('%s: no closure after anchor %r' % (where, key))
+                after = [x for x in sites if hits and x[0] >= hits[0] + len(pat)]
+                if not hits or not after:
+                    # the closure this contract was written for is gone (the code changed): nothing to weave
+                    if not canary:
+                        log.rw('R9-skipped', where, key, '(closure anchor absent in current source)')
+                    continue
                 bo, bc = after[0]
             if any(a0 <= bo < b0 for a0, b0 in protected):
                 continue
